@@ -960,6 +960,27 @@ theorem lensMethod_some (s : Setup) (focal : RegGrid) {δx δy Δx Δy zx zy Zx 
   cases hc : (classify s focal).1 <;> cases cheaper <;>
     simp [Fft.choose, detectFix, detectLit, GridDesc.isRegular, GridDesc.isSeparated]
 
+/-- **Orientation**: when the uv grid `focal.scaled(2π/(λ f))` is mirrored on an axis — focal spacing and `λ f` of
+opposite sign there (`focal.scaled([1,-1])`, `.scaled(-1)`, `.reversed()`, or a negative focal length) — the executable
+classification says `other` and the executable selection returns the MFT whatever the planner says: an FFT cannot
+produce a mirrored output grid.  (With both signs negative the quotient is positive and the grid may be native again.)
+The harness compares exactly this with the class `make_fourier_transform` builds. -/
+theorem lensMethod_mirrored (s : Setup) (focal : RegGrid) {δx δy Δx Δy zx zy Zx Zy : ℚ} {Nx Ny Mox Moy : ℕ}
+    (hp : s.pupil = ⟨[δx, δy], [Nx, Ny], [zx, zy]⟩) (hf : focal = ⟨[Δx, Δy], [Mox, Moy], [Zx, Zy]⟩)
+    (h : lamf s / (δx * Δx) < 0 ∨ lamf s / (δy * Δy) < 0) (cheaper : Bool) :
+    (classify s focal).1 = .other ∧ lensMethod s focal cheaper = some Method.mft := by
+  have hc : (classify s focal).1 = .other := by
+    rcases h with h | h
+    · exact classify_other_of_mirrored_x hp hf h
+    · exact classify_other_of_mirrored_y hp hf h
+  refine ⟨hc, ?_⟩
+  rw [lensMethod_some s focal hp hf cheaper, hc]
+  simp
+
+/-- non-vacuity: the full pair of the examples above with the y axis mirrored -/
+example : lamf ⟨4, 1, ⟨[1, 1], [2, 2], [0, 0]⟩⟩ / (1 * 1) < 0 ∨ lamf ⟨4, 1, ⟨[1, 1], [2, 2], [0, 0]⟩⟩ / (1 * (-1)) < 0 := by
+  right; unfold lamf; norm_num
+
 /-- **Backward through the executed pipeline from the executable classification** (`λ f > 0`, positive focal
 spacings): the adjoint Fourier integral. -/
 theorem lens_backward_eq_adjoint_integral_of_model (s : Setup) (focal : RegGrid) {δx δy Δx Δy zx zy Zx Zy : ℚ}
